@@ -104,6 +104,7 @@ struct RScn
     removed : BTreeSet<String>,      // top-level workspace directories the user has removed
 }
 
+static HANGS : std::sync::atomic::AtomicUsize = std::sync::atomic::AtomicUsize::new(0);
 fn pause() { std::thread::sleep(std::time::Duration::from_millis(9)); }
 
 impl RScn
@@ -312,7 +313,9 @@ impl RScn
         let stdout = match full { Some(f) => f, None => std::fs::File::create(&fo).expect("stdout file") };
         let mut child = Command::new(&self.bin).args(&args).current_dir(&self.dir).env("RULER_XLOG", &self.xlog)
             .stdin(std::process::Stdio::null()).stdout(stdout).stderr(std::fs::File::create(&fe).expect("stderr file")).spawn().expect("run ruler");
-        /* an invocation that does not return within 30 s (they take milliseconds) is ended and recorded as hanging */
+        /* an invocation that does not return within 30 s (they take milliseconds) is ended and recorded as hanging; after three of them
+           in one run of the driver the limit is 3 s, so that a ruler that always hangs does not cost half a minute per invocation */
+        let limit = if HANGS.load(std::sync::atomic::Ordering::SeqCst) >= 3 { 3 } else { 30 };
         let t0 = std::time::Instant::now();
         let mut hung = false;
         let status = loop
@@ -320,7 +323,7 @@ impl RScn
             match child.try_wait().expect("wait")
             {
                 Some(st) => break Some(st),
-                None => { if t0.elapsed().as_secs() >= 30 { let _ = child.kill(); let _ = child.wait(); hung = true; break None; } std::thread::sleep(std::time::Duration::from_millis(2)); },
+                None => { if t0.elapsed().as_secs() >= limit { let _ = child.kill(); let _ = child.wait(); hung = true; HANGS.fetch_add(1, std::sync::atomic::Ordering::SeqCst); break None; } std::thread::sleep(std::time::Duration::from_millis(2)); },
             }
         };
         let code = status.and_then(|s| s.code());
